@@ -1,22 +1,24 @@
 #!/bin/bash
-# usage: tools/run_all.sh [quick|thorough] [ids...]   runs the checks on /repo as it is, validates every evidence file
+# usage: tools/run_all.sh [quick|thorough] [ids...]   runs the checks of THIS copy of /verif on /repo as it is, validates every evidence file
 TIER=${1:-quick}; shift
-IDS=${@:-$(cd /verif && ./check list)}
-cd /verif
+HERE=$(cd "$(dirname "$0")/.." && pwd)
+cd "$HERE"
+IDS=${@:-$(./check list)}
 for id in $IDS; do
   s=$(date +%s)
   out=$(./check $id $TIER 2>&1); rc=$?
   echo "$id rc=$rc $(( $(date +%s) - s ))s $(echo "$out" | grep -E '^OK|VIOLATION|KNOWN-FINDING|INCONCLUSIVE' | head -3 | tr '\n' ' ')"
 done
-python3-vt - <<'PY'
-import json,jsonschema,glob
+HERE="$HERE" python3-vt - <<'PY'
+import json,jsonschema,glob,os
+here=os.environ["HERE"]
 sch=json.load(open('/root/.vp/EVIDENCE.schema.json'))
-for f in sorted(glob.glob('/verif/evidence/*.json')):
+for f in sorted(glob.glob(here+'/evidence/*.json')):
     try:
         jsonschema.validate(json.load(open(f)), sch)
     except Exception as e:
         print("INVALID", f, str(e)[:200])
 print("evidence validated")
-jsonschema.validate(json.load(open('/verif/MANIFEST.json')), json.load(open('/root/.vp/MANIFEST.schema.json')))
+jsonschema.validate(json.load(open(here+'/MANIFEST.json')), json.load(open('/root/.vp/MANIFEST.schema.json')))
 print("manifest valid")
 PY
